@@ -4,7 +4,7 @@
 
 package intconv
 
-//@ property C24 C22 C23
+//@ property C24
 //@ smt bv (define-fun b_at ((a (Array IDX BYTE)) (o IDX) (i IDX)) BYTE (select a (bvadd o i)))
 //@ smt bv (define-fun be2 ((a (Array IDX BYTE)) (o IDX)) (_ BitVec 16) (concat (b_at a o #x0000000000000000) (b_at a o #x0000000000000001)))
 //@ smt bv (define-fun be3 ((a (Array IDX BYTE)) (o IDX)) (_ BitVec 24) (concat (be2 a o) (b_at a o #x0000000000000002)))
